@@ -156,6 +156,28 @@ fn worker_run(args: &Args, progress: Arc<AtomicU64>, current: Arc<Mutex<String>>
                 }
             }
         }
+        // cache-history sensitivity: sub-terms of members become members of their own, so that (depending on
+        // the order) a parent is simplified after its children already went through the same instance
+        let roots = exprs.clone();
+        for e in roots.iter() {
+            if r.chance(1, 2) {
+                let mut cs = vec![];
+                ctx[*e].collect_children(&mut cs);
+                for c in cs {
+                    if !ctx[c].is_symbol() && !exprs.contains(&c) && exprs.len() < 14 {
+                        exprs.push(c);
+                        let mut gcs = vec![];
+                        ctx[c].collect_children(&mut gcs);
+                        for gc in gcs {
+                            if !ctx[gc].is_symbol() && !exprs.contains(&gc) && exprs.len() < 14 && r.chance(1, 2) {
+                                exprs.push(gc);
+                            }
+                        }
+                    }
+                }
+            }
+        }
+        let k = exprs.len();
         if exprs.iter().any(|e| tree_size(&ctx, *e, 2000) >= 2000) {
             stats.inc("skipped_huge");
             continue;
